@@ -213,6 +213,11 @@ def zero_chunk_mix(colls):
         return False
 
 
+def blocks_may_drift(ent):
+    """More than one block, or an in-place operation in the lineage (whose lowering may re-chunk)."""
+    return n_blocks(ent.coll) > 1 or ent.nmut > 0 or ent.tainted
+
+
 def has_zero_chunk(coll):
     try:
         return any(len(c) > 1 and 0 in c for c in coll.chunks)
@@ -573,6 +578,10 @@ class Interp:
             labs = ["value:dask", "value:dask-pool"]
             if getattr(vd, "npartitions", 1) > 1:
                 labs.append("value:dask-multiblock")
+            if not spec.get("one") and vm.ndim and blocks_may_drift(w):
+                # the advertised block count of the value can differ from the lowered one (chunk unification in
+                # where()/elemwise): SetItem then meets a multi-block value after all
+                self.tags.add(KF_MULTIBLOCK)
             if w is tgt or tgt.eid in w.anc:
                 labs.append("value:derived-from-target")
             return vm, vd, [w], labs
@@ -1444,7 +1453,7 @@ def _gen_value(D_, it, i, t, key, sel):
         idx = fit_index(D_, it.pool[j].shape, vs) if j is not None else None
         if idx is not None:
             one = False
-            multi = it.pool[j].coll[idx].npartitions > 1
+            multi = bool(vs) and (it.pool[j].coll[idx].npartitions > 1 or blocks_may_drift(it.pool[j]))
             if multi and _steer(KF_MULTIBLOCK):
                 it.excluded.append(KF_MULTIBLOCK)
                 one = True
